@@ -107,10 +107,12 @@ def Client.stepE (op : Op) (c : Client) : Option Res × Client :=
   if c.eof then (none, c)
   else
     let r := DC.Bufio.stepE op c.b
-    let c' := { c with b := r.2, err := recordErr c.err r.1.err }
     match op with
-    | .readRune => (some r.1, if r.1.err.isSome then { c' with eof := true } else c')
-    | .peek _ => (some r.1, c')
+    | .readRune =>
+      let c' := { c with b := r.2, err := recordErr c.err r.1.err }
+      (some r.1, if r.1.err.isSome then { c' with eof := true } else c')
+    | .peek n =>
+      (some r.1, { c with b := r.2, err := if n ≤ r.2.size then recordErr c.err r.1.err else c.err })
 
 def Client.runE (ops : List Op) (c : Client) : Client :=
   match ops with
@@ -146,5 +148,27 @@ theorem Client.runOld_eqE (ops : List Op) (c : Client) : Client.runOld ops c = C
   induction ops generalizing c with
   | nil => rfl
   | cons op rest ih => simp only [Client.runOld, Client.runOldE, Client.stepOld_eqE, ih]
+
+def Client.stepMidE (op : Op) (c : Client) : Option Res × Client :=
+  if c.eof then (none, c)
+  else
+    let r := DC.Bufio.stepE op c.b
+    let c' := { c with b := r.2, err := recordErrMid c.err r.1.err }
+    match op with
+    | .readRune => (some r.1, if r.1.err.isSome then { c' with eof := true } else c')
+    | .peek _ => (some r.1, c')
+
+def Client.runMidE (ops : List Op) (c : Client) : Client :=
+  match ops with
+  | [] => c
+  | op :: rest => Client.runMidE rest (c.stepMidE op).2
+
+theorem Client.stepMid_eqE (op : Op) (c : Client) : c.stepMid op = c.stepMidE op := by
+  cases op <;> simp [Client.stepMid, Client.stepMidE, DC.Bufio.step_eqE]
+
+theorem Client.runMid_eqE (ops : List Op) (c : Client) : Client.runMid ops c = Client.runMidE ops c := by
+  induction ops generalizing c with
+  | nil => rfl
+  | cons op rest ih => simp only [Client.runMid, Client.runMidE, Client.stepMid_eqE, ih]
 
 end DC.Bufio
